@@ -3,7 +3,7 @@ import ast
 from .. import nf, bind
 from ..nf import Poly, Tup, Const, NONE, TRUE
 from ..model import AnalysisError
-from ..rules import run as analyse, returns, fmt, is_app, S, C
+from ..rules import run as analyse, returns, fmt, is_app, S, C, conds_str
 
 NAMES = {'normalize', 'rho', 'theta', 'modes', 'mask'}
 ZFUNCS = ['zernike', 'zernike_compose', 'zernike_basis', 'zernike_fit', 'zernike_remove',
@@ -224,6 +224,49 @@ def run(chk, repo, tier):
            det_c or 'default cut-off', ffit.loc())
     # the basis holds real-valued polynomials: the array that receives them is a float array whatever the mask's type
     basis_dtype_rule(chk, repo, 'C12-e')
+    basis_order_rule(chk, repo, 'C12-e')
+
+
+def basis_order_rule(chk, repo, clause):
+    """Slice i of the cube zernike_basis returns is the mode modes[i]: the cube is filled by walking `modes` itself, or
+    what was filled in some other order (np.unique, sorted) is mapped back before it is returned."""
+    fbas = repo.func('zernike.zernike_basis')
+    _, paths, _ = analyse(repo, fbas)
+    ok, det, n = True, '', 0
+    for p in returns(paths):
+        root = nf.strip_apps(p.ret, ('m:reshape', 'reshape', 'copy', 'asarray', 'squeeze', 'm:squeeze'))
+        ra = root.single_atom() if isinstance(root, Poly) else None
+        if ra is None or ra[0] != 'loop':
+            ok = None if ok is not False else ok
+            det = det or f'undecided: returns {fmt(p.ret)[:100]}'
+            continue
+        name = ra[1].split('@')[0]
+        for lp in p.state.loops:
+            if lp['func'] != fbas.key or name not in lp['phi']:
+                continue
+            src = lp['iter']
+            sa = src.single_atom() if isinstance(src, Poly) else None
+            seq = sa[2][0] if sa is not None and is_app(sa, ('ndenumerate', 'enumerate')) and sa[2] else src
+            base = seq
+            for _ in range(4):
+                ba = base.single_atom() if isinstance(base, Poly) else None
+                if ba is not None and ba[0] == 'idx' and all(x in (NONE, nf.ELLIPSIS) for x in (ba[2].items if isinstance(ba[2], Tup) else [ba[2]])):
+                    base = Poly.atom(ba[1])        # modes[..., None]: same entries, one more axis
+                elif ba is not None and is_app(ba, ('asarray', 'atleast_1d', 'copy', 'm:ravel', 'm:flatten')):
+                    base = ba[2][0]
+                else:
+                    break
+            n += 1
+            if base != S('modes'):
+                reordered = any(is_app(x, ('unique', 'sort', 'sorted', 'argsort', 'numpy.unique', 'numpy.sort', 'm:sort')) or
+                                (x[0] == 'idx' and is_app(x[1], ('unique', 'numpy.unique'))) for x in nf.value_atoms(seq))
+                if reordered:
+                    ok = False
+                    det = f'the cube is filled walking {fmt(seq)[:80]} and returned without mapping back to the order of `modes` [{conds_str(p)[:60]}]'
+                elif ok:
+                    ok, det = None, f'undecided: filled walking {fmt(seq)[:80]}'
+    chk.ob(clause, 'D-order', fbas.key, 'slice i of the basis cube is mode modes[i]', (ok and n > 0) if ok is not None else None,
+           det or f'{n} path(s) fill the cube walking `modes`', fbas.loc())
 
 
 def basis_dtype_rule(chk, repo, clause):
